@@ -210,9 +210,9 @@ func catOnly(us []URI, cats ...string) []URI {
 // accountConfigs: rules for A x rules for B.
 func accountConfigs(u *Universe, aRules []*MRule, bs []*MRule) []*Config {
 	var out []*Config
-	for bi, b := range bs {
+	for _, b := range bs {
 		for _, a := range aRules {
-			out = append(out, &Config{Acct: map[int]*MRule{u.A: a, u.B: b}, Class: fmt.Sprintf("%s|B#%d", ruleClass(a, []int{u.B}), bi)})
+			out = append(out, &Config{Acct: map[int]*MRule{u.A: a, u.B: b}, Class: ruleClass(a, []int{u.B}) + "|B:" + ruleClass(b, []int{u.A})})
 		}
 	}
 	return out
@@ -231,10 +231,10 @@ func acctPairs(u *Universe) [][2]*MRule {
 
 func methodConfigs(u *Universe, mRules []*MRule, pairs [][2]*MRule) []*Config {
 	var out []*Config
-	for pi, p := range pairs {
+	for _, p := range pairs {
 		for _, m := range mRules {
 			out = append(out, &Config{Acct: map[int]*MRule{u.A: p[0], u.B: p[1]}, Method: m,
-				Class: fmt.Sprintf("%s|AB#%d", ruleClass(m, []int{u.A, u.B}), pi)})
+				Class: ruleClass(m, []int{u.A, u.B})})
 		}
 	}
 	return out
